@@ -48,9 +48,9 @@ def obligations(tier, kf):
     obs.append(Ob('i_installify', dict(kf, N=1, M=1, kind=2), 300).mutant('installify_ignores_directory'))
     for fn in ('m_install_make', 'n_install_ninja'):
         for which in ('pfx', 'dest'):
-            for kind in ((0, 2, 3) if q else range(5)):
+            for kind in range(5):
                 for n in range(0 if which == 'dest' else 1, (2 if q else 3) + 1):
-                    if q and n == 2 and kind != 0:
+                    if q and (n == 2 and kind != 0 or n != 1 and kind in (1, 4)):
                         continue
                     obs.append(Ob(fn, dict(kf, N=n, kind=kind, which=which), 1500,
                                   desc='%s %s symbolic |.|==%d, %s' % (fn, which, n, KINDS[kind])))
